@@ -6,8 +6,6 @@ package main
 // ParseConfig / NewRegistrationManager / OnReload / stats modules.
 
 import (
-	"time"
-	"sync"
 	"context"
 	"fmt"
 	"net"
@@ -16,6 +14,8 @@ import (
 	"path/filepath"
 	"regexp"
 	"strings"
+	"sync"
+	"time"
 
 	"github.com/refraction-networking/conjure/pkg/station/lib"
 	"github.com/refraction-networking/conjure/pkg/station/liveness"
@@ -230,6 +230,11 @@ func main() {
 	sa, sb := writeFile("subnets_a.toml", subnetsA), writeFile("subnets_b.toml", subnetsB)
 	sMal := writeFile("subnets_malformed.toml", "[Networks\n  broken = ")
 	sGone := filepath.Join(dir, "no-such-subnets.toml")
+	// well-formed TOML that is not a usable subnet file: a generation key that is not a number after a good
+	// generation (a typo: letter O for zero: the loader refuses it), and a generation whose list holds something that
+	// is not a CIDR (the loader does not look at entries: such a file loads, at start-up and on reload alike)
+	sKey := writeFile("subnets_badkey.toml", subnetsB+"    [Networks.2O]\n        Generation = 20\n        [[Networks.2O.WeightedSubnets]]\n            Weight = 1\n            Subnets = [\"203.0.113.0/24\"]\n")
+	sCidr := writeFile("subnets_badcidr.toml", subnetsB+"    [Networks.2]\n        Generation = 2\n        [[Networks.2.WeightedSubnets]]\n            Weight = 1\n            Subnets = [\"203.0.113.0/24\", \"not-a-cidr\"]\n")
 	garbage := writeFile("garbage.mmdb", "this is not a maxmind database")
 	valid4, valid6 := `"10.0.0.0/8"`, `"fc00::/7"`
 	listVals := func(valid string, malformed string) []string {
@@ -274,6 +279,9 @@ func main() {
 	malConf2 := writeFile("malformed2.toml", "enable_v6 = true\ncovert_blocklist_public_addrs = true\ncovert_blocklist_subnets = [\"172.16.0.0/12\"]\nphantom_blocklist = [\"198.18.0.0/33\"]\n")
 	synConf := writeFile("syntax.toml", "enable_v6 = [true\n")
 	goneConf := filepath.Join(dir, "no-such-config.toml")
+	// a file caught in the middle of being rewritten: empty, or cut after a first key that is not a station setting
+	emptyConf := writeFile("empty.toml", "")
+	cutConf := writeFile("cut.toml", "log_level = \"error\"\n")
 	// the lists of otherConf plus GeoIP database paths that cannot be opened: the configuration loads, OnReload gives up
 	// at the GeoIP step; the address policies must then be entirely the new or entirely the previous ones
 	geoConf := writeFile("other-geoip-broken.toml", "enable_v6 = true\ncovert_blocklist_subnets = [\"172.16.0.0/12\", \"::1/128\"]\ncovert_blocklist_domains = [\"^intra\\\\.corp$\"]\nphantom_blocklist = [\"198.18.0.0/16\"]\ngeoip_cc_db_path = \""+garbage+"\"\ngeoip_asn_db_path = \""+filepath.Join(dir, "missing.mmdb")+"\"\n")
@@ -282,8 +290,8 @@ func main() {
 		equiv               string // configuration with the same lists that a fresh start accepts ("" = conf itself)
 	}
 	var steps []reloadStep
-	for _, c := range [][3]string{{"conf-valid", otherConf, ""}, {"conf-malformed", malConf, ""}, {"conf-malformed-pubaddrs", malConf2, ""}, {"conf-syntax", synConf, ""}, {"conf-unreadable", goneConf, ""}, {"conf-valid-geoip-unopenable", geoConf, otherConf}} {
-		for _, s := range [][2]string{{"subnets-valid", sb}, {"subnets-malformed", sMal}, {"subnets-unreadable", sGone}} {
+	for _, c := range [][3]string{{"conf-valid", otherConf, ""}, {"conf-malformed", malConf, ""}, {"conf-malformed-pubaddrs", malConf2, ""}, {"conf-syntax", synConf, ""}, {"conf-unreadable", goneConf, ""}, {"conf-empty", emptyConf, ""}, {"conf-cut-after-first-key", cutConf, ""}, {"conf-valid-geoip-unopenable", geoConf, otherConf}} {
+		for _, s := range [][2]string{{"subnets-valid", sb}, {"subnets-malformed", sMal}, {"subnets-unreadable", sGone}, {"subnets-malformed-key", sKey}, {"subnets-valid-with-non-cidr-entry", sCidr}} {
 			steps = append(steps, reloadStep{c[0] + "+" + s[0], c[1], s[1], c[2]})
 		}
 	}
